@@ -26,6 +26,7 @@ inductive DSelf
   | validateObject | validateObjectAsync
   | into                                     -- RecordValidator
   | coerce
+  | targetCls                                -- `self.data_cls` / `self.named_tuple_cls`
   | other (name : String)
 deriving DecidableEq, Repr, Inhabited
 
@@ -36,6 +37,9 @@ inductive DExp
   | var (v : DVar)
   | attr (e : DExp) (a : DAttr)
   | mkCoercionErr (compat dest : DExp)
+  | instToDict (e : DExp)                    -- `_dataclass_instance_to_dict(e)` / `e._asdict()`
+  | dictOrCls                                -- the set `{dict, self.<target class>}`
+  | construct (e : DExp)                     -- `self.<target class>(**e)`
   | self
   | data                                     -- the parameter `data`
   | selfAttr (a : DSelf)
@@ -91,6 +95,10 @@ structure DictAnyCfg where
   /-- the class-based record validators: the coercer, the target class -/
   coerce : Option CoerceK := none
   cls : ClassId := default
+  /-- dataclass / NamedTuple: the constructor's parameters and their defaults; which of the two it is -/
+  fieldNames : List String := []
+  defaults : List (Option PyVal) := []
+  isNT : Bool := false
 
 inductive AV
   | py (v : PyVal)
@@ -184,6 +192,7 @@ def dselfAttr (cfg : DictAnyCfg) : DSelf → Option AV
   | .validateObjectAsync => some (match cfg.aoc with | some c => .aobjCheck c | none => .none)
   | .into => some .intoFn
   | .coerce => some (match cfg.coerce with | some c => .coercer c | none => .none)
+  | .targetCls => some (.tyName (.cls cfg.cls))
   | .other _ => Option.none
 
 /-- calling the record's coercer (target and destination type `dict`; no default coercer exists for dicts, so the
@@ -198,6 +207,12 @@ def dictCompat (cls : ClassId) : CoerceK → List Ty
   | .dflt => defaultCompat .dict
   | .classOnly => [.cls cls]
   | .user _ compat _ => compat
+
+/-- the model-side configuration of a class-instantiating record validator -/
+def DictAnyCfg.toClass (c : DictAnyCfg) : RecCfg :=
+  { kind := if c.isNT then .namedtuple else .dataclass, keys := c.keys, reqs := c.reqs, cls := c.cls,
+    fieldNames := c.fieldNames, defaults := c.defaults, intoId := 0, into := fun _ => .none, oc := c.oc, aoc := c.aoc,
+    failUnknown := c.failUnknown, coerce := c.coerce }
 
 inductive DFlow
   | next (st : DSt)
@@ -236,6 +251,18 @@ def DExp.eval (cfg : DictAnyCfg) (x : PyVal) (st : DSt) : DExp → DM AV
        | .maybe (some y), .valA => .ok (.py y, st)
        | .coercer c, .compatibleTypes => .ok (.tys (dictCompat cfg.cls c), st)
        | _, _ => .error (.stuck "attribute", st.tr))
+  | .instToDict e =>
+    match e.eval cfg x st with
+    | .error err => .error err
+    | .ok (.py (.inst _ doid _ names vals), st) =>
+      .ok (.py (if cfg.isNT || cfg.cls.slots then instDict 0 names vals else instDict doid names vals), st)
+    | .ok (_, st) => .error (.stuck "instance to dict", st.tr)
+  | .dictOrCls => .ok (.tys [.dict, .cls cfg.cls], st)
+  | .construct e =>
+    match e.eval cfg x st with
+    | .error err => .error err
+    | .ok (.dictPayload kvs, st) => .ok (.built (Koda.construct cfg.toClass kvs), st)
+    | .ok (_, st) => .error (.stuck "constructor call", st.tr)
   | .mkCoercionErr compat dest =>
     match compat.eval cfg x st with
     | .error err => .error err
